@@ -6,6 +6,7 @@ decision (fork); the driver (vf.explore) re-executes the harness for every feasi
 alternative (stateless DFS).
 """
 import builtins
+import sys
 import time
 
 import z3
@@ -95,7 +96,7 @@ class Ctx:
         i = len(self.dec)
         if i >= self.max_decisions:
             raise EngineLimit("decision cap")
-        h = cond.hash()
+        h = _site()
         if i < len(self.prefix):
             taken, ph = self.prefix[i]
             if ph != h:
@@ -153,6 +154,27 @@ class Ctx:
             raise EngineLimit("BV%d overflow possible on this path: int model not exact" % W)
         if r == z3.unknown:
             raise EngineLimit("solver unknown on overflow obligations")
+
+
+_ENGINE_FILES = None
+
+
+def _site():
+    """fingerprint of the program point that asked for this decision (first frame outside the
+    engine): used to detect a harness whose replay diverges from the recorded decisions"""
+    global _ENGINE_FILES
+    if _ENGINE_FILES is None:
+        import os
+
+        d = os.path.dirname(os.path.abspath(__file__))
+        _ENGINE_FILES = {os.path.join(d, n) for n in ("sym.py", "symstr.py", "symfloat.py", "symre.py", "shims.py", "desugar.py", "symtime.py")}
+    f = sys._getframe(2)
+    while f is not None and f.f_code.co_filename in _ENGINE_FILES:
+        f = f.f_back
+    if f is None:
+        return 0
+    c = f.f_code
+    return (hash(c.co_filename) ^ (c.co_firstlineno * 1000003) ^ (f.f_lineno * 7919)) & 0x7FFFFFFF
 
 
 def B(cond):
